@@ -68,7 +68,7 @@ type Case struct {
 	Old     string `json:"old"`    // size class of the old content: empty | small | big
 	New     string `json:"new"`    // size class of the new content
 	Layout  string `json:"layout"` // tmpdir (TMPDIR on the same file system) | xdev (TMPDIR elsewhere) | explicit (opts.TempDir) | explicitx
-	Fault   string `json:"fault"`  // none | srcerr (source reader fails half way) | short (first download is cut short)
+	Fault   string `json:"fault"`  // none | srcerr (source reader fails half way) | short (first download is cut short) | shortstream (every download is a close-delimited body cut short)
 	Seed    int    `json:"seed"`
 	Root    string `json:"root"`   // sandbox (filled in by the batch runner)
 	Tmpdir  string `json:"tmpdir"` // TMPDIR of the writer (filled in by the batch runner)
@@ -585,6 +585,20 @@ func (l *layout) prepared(gen int) (func() error, func(), error) {
 			if c.Fault == "short" && n == 1 {
 				_, _ = w.Write(data[:len(data)/2])
 				return // the server closes the connection: the client sees an unexpected EOF
+			}
+			if c.Fault == "shortstream" {
+				// a response without Content-Length and without chunking is delimited by the close of the
+				// connection: an interrupted transfer looks like a clean end of the body to the client
+				if hj, ok := w.(http.Hijacker); ok {
+					conn, buf, err := hj.Hijack()
+					if err == nil {
+						_, _ = buf.WriteString("HTTP/1.1 200 OK\r\nContent-Type: application/octet-stream\r\nConnection: close\r\n\r\n")
+						_, _ = buf.Write(data[:len(data)/2])
+						_ = buf.Flush()
+						_ = conn.Close()
+						return
+					}
+				}
 			}
 			if len(data) <= 64<<10 {
 				_, _ = w.Write(data)
